@@ -288,11 +288,11 @@ def _base_case(draw):
 
 SUBS = [
     Sub("base_metrics", check_base, strategy=_base_case, quick=600, thorough=12000, shards=8,
-        floors={"nt": 0.209, "single_weighted_row": 0.1}),
+        floors={"nt": 0.164, "single_weighted_row": 0.1}),
     Sub("metric_frame", check_frame, strategy=lambda: _case(metrics=True), quick=500, thorough=10000, shards=16,
-        floors={"nt": 0.287, "single_weighted_row_group": 0.15}),
+        floors={"nt": 0.228, "single_weighted_row_group": 0.15}),
     Sub("named_metrics", check_named, strategy=_case, quick=160, thorough=5000, shards=16,
-        floors={"nt": 0.3, "single_weighted_row_group": 0.15}),
+        floors={"nt": 0.25, "single_weighted_row_group": 0.15}),
     Sub("large_integer_weights", check_large_integer_weights, strategy=_large_weight_case, quick=48, thorough=600, shards=16,
         shrink_quick=False),
 ]
